@@ -20,6 +20,8 @@ if status == "known":
     e["bucket"] = bucket or pay.get("bucket")
     if region:
         e["region"] = region
+    else:
+        e["scope"] = "bucket"
 d["findings"] = [x for x in d["findings"] if x["id"] != fid] + [e]
 json.dump(d, open('/verif/known_findings.json', 'w'), indent=1)
 print("added", fid)
